@@ -432,10 +432,34 @@ theorem c19_short_path (incl excl : List String) (root f : String) :
         rw [this, List.drop_left]
       · intro hq; cases hq
 
-/-- tripwire: read from the source on every run: the snapshot action context (the source the frame collector asks
-    in production) answers `is_app_frame` by asking the configuration of its trigger and nothing else, so
-    `c19_app_frame` / `c19_short_path` are about the frames the agent actually pushes. -/
-theorem c19_collector_asks_config : contextAsksConfig = true := by decide
+/-- tripwire: the route a collected frame takes to the rules, as the source spells it NOW (`frameRoute` is rebuilt from
+    the AST on every run — a real value, compared here): `parse_short_name` asks `self.__source.is_app_frame`, the
+    collector's source is what it was constructed with, the snapshot action constructs it with itself, its
+    `is_app_frame` is the configuration's, and `trigger_context.config` is the configuration the trigger was built
+    with.  A cache, a second rule set or another object on any of these hops changes the list and fails this theorem.
+    (Not pinned: who constructs the TriggerContext — `TriggerHandler`, C11/C12's area.) -/
+theorem c19_collector_asks_config :
+    frameRoute =
+      ["FrameCollector.parse_short_name: self.__source.is_app_frame(filename)",
+       "FrameCollector.__init__: self.__source = source",
+       "SnapshotActionContext._process_action: FrameCollector(self, self.trigger_context.frame)",
+       "SnapshotActionContext.is_app_frame: return self.trigger_context.config.is_app_frame(filename)",
+       "TriggerContext.config: return self.__config",
+       "TriggerContext.__init__: self.__config = config"] := by decide
+
+/-- tripwire: **no consumer reads the environment behind the configuration's back** — every read of the process
+    environment anywhere under src/deep (all files scanned on every run: os.getenv / os.environ.get / os.environ[..] /
+    any other use of os.environ) is in deep/config (module defaults, the DEEP_<name> fallback of `__getattribute__`),
+    in deep/__init__.py (DEEP_APP_ROOT only) or in the resource detector (its two variables, C18).  A use site such as
+    `os.environ.get('DEEP_SERVICE_URL') or config.SERVICE_URL` in grpc_service.py adds an entry and fails this. -/
+theorem c19_env_reads_only_in_config :
+    (∀ r ∈ envReadSites, r.1 ∈ ["deep/config/__init__.py", "deep/config/config_service.py", "deep/__init__.py",
+                                 "deep/api/resource/__init__.py"]) ∧
+    envReadSites.filter (fun r => r.1 == "deep/__init__.py" || r.1 == "deep/api/resource/__init__.py"
+                                   || r.1 == "deep/config/config_service.py") =
+      [("deep/__init__.py", "'DEEP_APP_ROOT'"), ("deep/api/resource/__init__.py", "DEEP_RESOURCE_ATTRIBUTES"),
+       ("deep/api/resource/__init__.py", "DEEP_SERVICE_NAME"), ("deep/config/config_service.py", "'DEEP_%s' % name")] := by
+  decide
 
 /-! ## environment text -/
 
@@ -632,11 +656,16 @@ theorem get_env_text (k : String) (hk : k ∈ textKeys) (t : String) (c : List (
   simp only [World.get]
   rw [((c19_precedence c _ px k hown).2 (Or.inl hc)).1 _ (moduleValue_text k hk t env px)]; rfl
 
-/-- **every documented setting behaves identically at its USE SITE whether given in code or as its DEEP_ variable**
-    — for every text `t`, every native spelling `v` of it (`NativeOf`), every other code entries and environment:
-    the consumer of the setting (channel target / `str2bool` / `float()` / provider path / logging file / prefix
-    iteration) computes the same thing from `{k: v}` in code and from `DEEP_<k>=t`.  Holds because RepeatedTimer
-    coerces with `float()` and `str2bool` with `str()` (both read from the source on every run). -/
+/-- **six of the eight documented settings behave identically at their USE SITE whether given in code or as their
+    DEEP_ variable** — SERVICE_URL, SERVICE_SECURE, LOGGING_CONF, POLL_TIMER, SERVICE_AUTH_PROVIDER, IN_APP_INCLUDE
+    (exactly the keys `NativeOf` has constructors for: `c19_use_site_native_keys`; NOT IN_APP_EXCLUDE — the two routes
+    differ by the interpreter prefix, `c19_exclude_env_appends_interpreter_prefix`, known finding — and NOT APP_ROOT,
+    whose variable is read by `deep.start` only: `c19_documented_env_eq_code_partial`).  For every text `t`, every
+    native spelling `v` of it, every other code entries and environment: the consumer (channel target / `str2bool` /
+    `float()` / provider path / logging file / prefix iteration) computes the same from `{k: v}` in code and from
+    `DEEP_<k>=t`.  Holds because RepeatedTimer coerces with `float()` and `str2bool` with `str()` (both read from the
+    source on every run).  POLL_TIMER texts outside the plain-decimal alphabet (`1e1`, `inf`, `nan`, `١٠`, `1_0`) are
+    `Use.unmodelled` on both routes: the equation then says nothing about Python (`intervalTextModelled`). -/
 theorem c19_use_site_env_eq_code (k t : String) (v : CVal) (h : NativeOf k t v) (c : List (String × CVal))
     (env : Env) (px : String) (hc : c.lookup k = none) :
     (World.mk ((k, v) :: c) env px).use k = (World.mk c (("DEEP_" ++ k, t) :: env) px).use k := by
@@ -659,11 +688,13 @@ theorem c19_use_site_env_eq_code (k t : String) (v : CVal) (h : NativeOf k t v) 
   | secondsFloat =>
     simp only [World.use]
     rw [get_code _ _ _ _ _ (by decide) rfl, get_env_text _ (by decide) _ _ _ _ (by decide) hc]
-    simp only [useOf, callIt, c19_poll_interval_float_text]
+    have hm : intervalTextModelled (CVal.float t) = intervalTextModelled (CVal.str t) := rfl
+    simp only [useOf, callIt, c19_poll_interval_float_text, hm]
   | secondsInt _ n h =>
     simp only [World.use]
     rw [get_code _ _ _ _ _ (by decide) rfl, get_env_text _ (by decide) _ _ _ _ (by decide) hc]
-    simp only [useOf, callIt, c19_poll_interval_text t n h]
+    have hi : pollInterval (CVal.int n) = some ⟨n, 0⟩ := rfl
+    simp only [useOf, callIt, c19_poll_interval_text t n h, hi]
   | secondsText =>
     simp only [World.use]
     rw [get_code _ _ _ _ _ (by decide) rfl, get_env_text _ (by decide) _ _ _ _ (by decide) hc]; rfl
@@ -671,6 +702,33 @@ theorem c19_use_site_env_eq_code (k t : String) (v : CVal) (h : NativeOf k t v) 
     have := c19_include_code_list_eq_env t c env px hc
     have hE : "DEEP_" ++ "IN_APP_INCLUDE" = "DEEP_IN_APP_INCLUDE" := by decide
     simp only [World.use, World.get, useOf, hE, this.1, this.2]
+
+/-- `NativeOf` speaks of exactly six documented keys — never of IN_APP_EXCLUDE or APP_ROOT — and of each of the six
+    for some text and value (the theorem above is not vacuous for any of them) -/
+theorem c19_use_site_native_keys :
+    (∀ k t v, NativeOf k t v → k ∈ documentedKeys ∧ k ≠ "IN_APP_EXCLUDE" ∧ k ≠ "APP_ROOT") ∧
+    (∀ k ∈ documentedKeys, k ≠ "IN_APP_EXCLUDE" → k ≠ "APP_ROOT" → ∃ t v, NativeOf k t v) := by
+  constructor
+  · intro k t v h
+    cases h <;> decide
+  · intro k hk h1 h2
+    simp only [documentedKeys, List.mem_cons, List.not_mem_nil, or_false] at hk
+    rcases hk with rfl | rfl | rfl | rfl | rfl | rfl | rfl | rfl
+    · exact ⟨"h:1", _, NativeOf.url _⟩
+    · exact ⟨"False", CVal.bool false, NativeOf.flag _ _ rfl rfl⟩
+    · exact ⟨"f.conf", _, NativeOf.logging _⟩
+    · exact ⟨"0.25", _, NativeOf.secondsFloat _⟩
+    · exact ⟨"a.B", _, NativeOf.auth _⟩
+    · exact ⟨"/a,/b", _, NativeOf.inclList _⟩
+    · exact absurd rfl h1
+    · exact absurd rfl h2
+
+/-- interval texts outside the plain-decimal alphabet are outside the model (not "fails"); inside it a non-number
+    fails and a decimal is the number it spells -/
+theorem c19_interval_alphabet_witness :
+    useOf "POLL_TIMER" (CVal.str "1e1") = some Use.unmodelled ∧ useOf "POLL_TIMER" (CVal.str "inf") = some Use.unmodelled ∧
+    useOf "POLL_TIMER" (CVal.str "١٠") = some Use.unmodelled ∧ useOf "POLL_TIMER" (CVal.str "1..2") = some Use.fails ∧
+    useOf "POLL_TIMER" (CVal.str " 2.5 ") = some (Use.seconds ⟨25, 1⟩) := by decide
 
 /-- the two routes can disagree when the native value is NOT a spelling of the text: the int 0 is not the text
     "0.5" — and the hypothesis `hn` of `NativeOf.flag` is needed: `None` in code is "not given", not the text "None" -/
